@@ -383,13 +383,34 @@ def c14_concurrent(ctx, only=None):
         clock = transports.Clock(1 << 40)
         link = transports.Link(clock, [dict(sim=dict(maxdata=4096, default_chunks=[]), dt=1)])
         sync_mod.time = clock
-        dev = AdbDevice(transports.MemTransport(link), banner=b"verif")
-        dev.connect()
-        dev._local_id = start
         baton = sched.Baton(ctx.rng, fixed=(only or {}).get("order"))
-        dev._local_id_lock = sched.SchedLock(baton, "localId")
-        dev._io_manager._transport_lock = sched.SchedLock(baton, "transport", no_yield_under=("transport",))
-        dev._io_manager._store_lock = sched.SchedLock(baton, "store", no_yield_under=("transport",))
+        fresh = (only or {}).get("fresh", k % 3 == 0)
+        if fresh:
+            # a FRESH object whose very first streams are opened concurrently: every lock the module creates (whenever it creates it) is a
+            # scheduler lock, so locks made lazily on first use are under the scheduler's control as well
+            made = []
+
+            def factory():
+                lk = sched.SchedLock(baton, "lock#%d" % len(made))
+                made.append(lk)
+                return lk
+            real_lock, sync_mod.Lock = sync_mod.Lock, factory
+            try:
+                dev = AdbDevice(transports.MemTransport(link), banner=b"verif")
+                dev.connect()
+            except Exception:
+                sync_mod.Lock = real_lock
+                raise
+            for lk, name, nyu in ((dev._local_id_lock, "localId", ()), (dev._io_manager._transport_lock, "transport", ("transport",)), (dev._io_manager._store_lock, "store", ("transport",))):
+                if isinstance(lk, sched.SchedLock):
+                    lk.name, lk.no_yield_under = name, nyu
+        else:
+            dev = AdbDevice(transports.MemTransport(link), banner=b"verif")
+            dev.connect()
+            dev._local_id_lock = sched.SchedLock(baton, "localId")
+            dev._io_manager._transport_lock = sched.SchedLock(baton, "transport", no_yield_under=("transport",))
+            dev._io_manager._store_lock = sched.SchedLock(baton, "store", no_yield_under=("transport",))
+        dev._local_id = start
         ids = [None] * nthreads
         tracer = sched.line_tracer(baton, {AdbDevice._open.__code__}, follow=_same_class_helper)
 
@@ -410,11 +431,14 @@ def c14_concurrent(ctx, only=None):
             deadlock = str(exc)
         for t in threads:
             t.join(timeout=2.0)
+        if fresh:
+            sync_mod.Lock = real_lock
         rep.evaluations += 1
         rep.count("c14_threads", nthreads)
+        rep.count("c14_fresh_object", bool(fresh))
         rep.count("c14_start", start if start < 5 else "2^32-%d" % (2 ** 32 - start))
         opens = [a0 for who, cmd, a0, a1, d in link.used[0].sim.log if who == "host" and cmd == b"OPEN"]
-        ser = dict(kind="c14-concurrent", threads=nthreads, start=start, order=[e[0] for e in baton.log if e[1] in ("line", "acq")])
+        ser = dict(kind="c14-concurrent", threads=nthreads, start=start, fresh=bool(fresh), order=list(baton.picks))
         rep.signatures.add(("c14conc", nthreads, start, tuple(e[0] for e in baton.log if e[1] == "line")[:30]))
         good = [i for i in ids if isinstance(i, int)]
         if deadlock:
@@ -456,7 +480,7 @@ def conc_sessions(ctx, n=None, only=None):
     from adb_shell.adb_device import AdbDevice
     from adb_shell.adb_device_async import AdbDeviceAsync
     rep = ctx.report
-    total = n if n is not None else int((100 if ctx.tier == "quick" else 1500) * ctx.budget)
+    total = n if n is not None else int((300 if ctx.tier == "quick" else 4000) * ctx.budget)
     if only is not None:
         total = 1
     for k in range(total):
@@ -474,6 +498,8 @@ def conc_sessions(ctx, n=None, only=None):
         bias = {"C07": ["push", "push", "push", "stat", "pull", "shell"], "C08": ["pull", "pull", "push", "stat", "shell"],
                 "C09": ["stat", "stat", "pull", "push", "shell"], "C10": ["push", "pull", "stat"], "C06": ["shell", "push", "stat", "pull", "push"]}.get(ctx.prop, ["shell", "shell", "push", "stat", "pull"])
         kinds = (only or {}).get("kinds") or [rng.choice(bias) for _ in range(nw)]
+        if only is None and ctx.prop in ("C06", "C12") and rng.random() < 0.25:
+            kinds[rng.randrange(nw)] = "close"       # somebody closes the device while the others are in the middle of their operations
         pushed = {i: bytes([97 + i]) * rng.choice([10, 3000, 5000]) for i in range(nw)}
         pulled = {i: bytes([65 + i]) * rng.choice([0, 7, 9000]) for i in range(nw)}
         if only is not None:
@@ -536,7 +562,11 @@ def conc_sessions(ctx, n=None, only=None):
                 if tracer:
                     sys.settrace(tracer)
                 try:
-                    if kinds[i] == "shell":
+                    if kinds[i] == "close":
+                        baton.park(("io",))
+                        dev.close()
+                        results[i] = ("ok", None)
+                    elif kinds[i] == "shell":
                         results[i] = ("ok", dev.shell(cmds[i].decode(), transport_timeout_s=1.0, read_timeout_s=5.0, decode=False))
                     elif kinds[i] == "push":
                         dev.push(ParkIO(pushed[i]), "/w%d" % i, mtime=5, transport_timeout_s=1.0, read_timeout_s=5.0)
@@ -590,7 +620,11 @@ def conc_sessions(ctx, n=None, only=None):
                     await baton.park(i, ("start",))
                     import io as _io
                     try:
-                        if kinds[i] == "shell":
+                        if kinds[i] == "close":
+                            await baton.park(i, ("io",))
+                            await dev.close()
+                            results[i] = ("ok", None)
+                        elif kinds[i] == "shell":
                             results[i] = ("ok", await dev.shell(cmds[i].decode(), transport_timeout_s=1.0, read_timeout_s=5.0, decode=False))
                         elif kinds[i] == "push":
                             await dev.push(_io.BytesIO(pushed[i]), "/w%d" % i, mtime=5, transport_timeout_s=1.0, read_timeout_s=5.0)
@@ -637,6 +671,11 @@ def conc_sessions(ctx, n=None, only=None):
         fails = []
         if deadlock:
             fails.append(("deadlock", "deadlock: " + deadlock))
+        elif "close" in kinds:
+            # after a concurrent close() the other operations may fail in any way; what must hold is that everybody terminates
+            for i in range(nw):
+                if results[i] is None:
+                    fails.append(("deadlock", "worker %d (%s) never finished after another worker called close()" % (i, kinds[i])))
         else:
             if sim.malformed is not None:
                 fails.append(("malformed-wire", "the device received bytes that are not whole well-formed messages (header fields %r): concurrent sends interleaved" % (sim.malformed,)))
